@@ -33,6 +33,7 @@ func (n *sdNode) clone() *sdNode {
 }
 
 type diskImage struct {
+	nsLog       []nsOp
 	files       map[string]*sdNode
 	durable     map[string]*sdNode
 	dirs        map[string]bool
@@ -57,6 +58,16 @@ type simDisk struct {
 	fullAfter   int64 // ENOSPC once total bytes exceed this (0 = unlimited)
 	opLog       []string
 	keepLog     bool
+	// namespace operations since the directory was last synced, in order (per simulated disk there
+	// is one data directory): a crash keeps a prefix of them (journalled file systems order
+	// directory operations; pebble relies on that)
+	nsLog []nsOp
+}
+
+type nsOp struct {
+	kind     string // create | remove | rename | link
+	name, to string
+	node     *sdNode
 }
 
 func newSimDisk() *simDisk {
@@ -117,6 +128,13 @@ func (d *simDisk) snapshot(kind string) *diskImage {
 	for k := range d.durableDirs {
 		im.durableDirs[k] = true
 	}
+	for _, o := range d.nsLog {
+		c := o
+		if o.node != nil {
+			c.node = cp(o.node)
+		}
+		im.nsLog = append(im.nsLog, c)
+	}
 	return im
 }
 
@@ -161,39 +179,33 @@ func (im *diskImage) restore(mode string, rng *prng) *simDisk {
 		for k := range im.dirs { // directories: keep current (pebble creates its dir once)
 			d.dirs[k], d.durableDirs[k] = true, true
 		}
-		names := map[string]bool{}
-		for k := range im.files {
-			names[k] = true
+		// namespace: the durable entries plus a prefix of the directory operations since the last
+		// directory sync (ordered metadata, as journalled file systems give and pebble assumes)
+		ns := map[string]*sdNode{}
+		for k, n := range im.durable {
+			ns[k] = n
 		}
-		for k := range im.durable {
-			names[k] = true
+		cut := rng.intn(len(im.nsLog) + 1)
+		for _, o := range im.nsLog[:cut] {
+			switch o.kind {
+			case "create":
+				ns[o.name] = o.node
+			case "remove":
+				delete(ns, o.name)
+			case "rename":
+				delete(ns, o.name)
+				ns[o.to] = o.node
+			case "link":
+				ns[o.to] = o.node
+			}
 		}
-		keys := make([]string, 0, len(names))
-		for k := range names {
+		keys := make([]string, 0, len(ns))
+		for k := range ns {
 			keys = append(keys, k)
 		}
 		sort.Strings(keys)
 		for _, k := range keys {
-			cur, dur := im.files[k], im.durable[k]
-			var n *sdNode
-			switch {
-			case cur != nil && dur != nil:
-				if rng.chance(50) {
-					n = cur
-				} else {
-					n = dur
-				}
-			case dur != nil:
-				n = dur // unlink not yet durable: file may still be there
-				if rng.chance(50) {
-					continue
-				}
-			default:
-				if rng.chance(50) {
-					continue // create not yet durable
-				}
-				n = cur
-			}
+			n := ns[k]
 			// content: synced image overlaid sector-wise by a random subset of newer sectors
 			old := n.synced
 			neu := n.data
@@ -243,6 +255,7 @@ func (d *simDisk) Create(name string) (vfs.File, error) {
 	}
 	n := &sdNode{}
 	d.files[name] = n
+	d.nsLog = append(d.nsLog, nsOp{kind: "create", name: name, node: n})
 	d.after("create")
 	return &sdFile{d: d, n: n, name: name, write: true}, nil
 }
@@ -262,6 +275,7 @@ func (d *simDisk) Link(oldname, newname string) error {
 		return err
 	}
 	d.files[newname] = n
+	d.nsLog = append(d.nsLog, nsOp{kind: "link", name: oldname, to: newname, node: n})
 	d.after("link")
 	return nil
 }
@@ -298,6 +312,7 @@ func (d *simDisk) OpenReadWrite(name string, opts ...vfs.OpenOption) (vfs.File, 
 		}
 		n = &sdNode{}
 		d.files[name] = n
+		d.nsLog = append(d.nsLog, nsOp{kind: "create", name: name, node: n})
 		d.after("create")
 	}
 	f := &sdFile{d: d, n: n, name: name, write: true}
@@ -341,6 +356,7 @@ func (d *simDisk) Remove(name string) error {
 		return err
 	}
 	delete(d.files, name)
+	d.nsLog = append(d.nsLog, nsOp{kind: "remove", name: name})
 	d.after("remove")
 	return nil
 }
@@ -379,6 +395,7 @@ func (d *simDisk) Rename(oldname, newname string) error {
 	}
 	delete(d.files, oldname)
 	d.files[newname] = n
+	d.nsLog = append(d.nsLog, nsOp{kind: "rename", name: oldname, to: newname, node: n})
 	d.after("rename")
 	return nil
 }
@@ -656,6 +673,7 @@ func (f *sdDir) Sync() error {
 			d.durable[k] = n
 		}
 	}
+	d.nsLog = nil
 	d.after("syncdir")
 	return nil
 }
